@@ -54,4 +54,4 @@ def fresh_value(interp, path, td: TypeDesc, name, opt_choice=None, depth=0):
 def _is_model(interp, cls):
     """frozen dataclasses of dznpy.ast / dznpy.scoping are immutable model values"""
     return isinstance(cls, ClassV) and cls.is_dataclass and cls.frozen and \
-        cls.module.name in ('dznpy.ast', 'dznpy.scoping')
+        (cls.module.name in ('dznpy.ast', 'dznpy.scoping') or cls.qualname in getattr(interp, 'extra_model_classes', ()))
